@@ -96,6 +96,12 @@ func (rww *responseWriterWrapper) WriteHeader(status int) {
 	if rww.wroteHeader {
 		return
 	}
+	if status < 100 || status > 999 {
+		// net/http refuses such a status by panicking: nothing is sent, and
+		// the response that whoever recovers writes is the one to revise
+		rww.ResponseWriterWrapper.WriteHeader(status)
+		return
+	}
 	if isInformational(status) {
 		// an informational response (such as 103 Early Hints)
 		// goes out as it is; the final header is still to come
